@@ -187,7 +187,7 @@ def property_checks(par):
             A(("integer seed: sub-harmonic draws are independent of the high-frequency draws", float(numpy.abs(got - want).max() / max(numpy.abs(want).max(), 1e-300)), 1e-12))
             r = numpy.sqrt(dx ** 2 + dy ** 2) * par["delta"]
             far = r >= 0.45 * N * par["delta"]
-            if par["delta"] < 10 and far.any():
+            if par["delta"] < 10 and far.any() and par["L0"] < 1e4:
                 Dv = D_vk(r, par["r0"], par["L0"])
                 A(("sub-harmonics closer to the analytic curve at large separations", float(numpy.mean(numpy.abs((Dh + Dl)[far] - Dv[far])) - numpy.mean(numpy.abs(Dh[far] - Dv[far]))) / Dv[far].mean(), 0.0))
     return out
@@ -218,6 +218,10 @@ def falsify(ctx, deep=False):
         inp = gen_input(rng)
         if i == 0:
             inp.update({"N": 8, "delta": 150.0})
+        if i in (1, 2):
+            # the Kolmogorov limit asked for in the usual way: an infinite (or astronomically large) outer scale, for which
+            # 1/L0^2 vanishes and the zero-frequency sample of the spectrum is infinite before it is removed
+            inp.update({"L0": float("inf") if i == 1 else 1e120})
         try:
             res = property_checks(inp)
         except Exception as ex:
